@@ -430,6 +430,12 @@ func c11Jobs(tier string) []Job {
 	}
 	// a move-in (fresh cookie) and a plain create after stale cookies, and cookie 0
 	ih = append(ih, []string{"inj 1:40:7:gone", "inj 2:80:8:in,1:100:0:plain", "inj 1:80:0:zero"})
+	// cookies are compared as the 32-bit values they are: an unmatched move out with cookie c, then a move in whose
+	// cookie differs from c in exactly one bit (every bit position), must not be correlated
+	for bit := 0; bit < 32; bit++ {
+		c := uint32(0x2a5a5a5b)
+		ih = append(ih, []string{fmt.Sprintf("inj 1:40:%d:out%d", c, bit), fmt.Sprintf("inj 2:80:%d:in%d", c^(1<<bit), bit), fmt.Sprintf("inj 1:40:%d:o2,2:80:%d:i2", c^(1<<bit)^(1<<((bit+7)%32)), c^(1<<bit)^(1<<((bit+7)%32)))})
+	}
 	jobs = append(jobs, chunk(map[string]any{"fix": "std", "init": []string{"A w/d", "A w/d2"}, "inject": "true"}, ih, nil, 16)...)
 	return jobs
 }
